@@ -29,6 +29,8 @@ REQUIRED_CLASSES = [
     "interval_grid:same_label_neighbours_meet",
     "interval_random:decimal_shrink_moves_entry",
     "interval_random:straddler",
+    "interval_random:after_in_place_edit",
+    "interval_random:straddler_with_touching_follower",
 ]
 
 MODES = ["truncate", "categorical", "error"]
@@ -43,6 +45,8 @@ def classify(spec, a, b, mode, shrink):
             cl.append("overlap")
         if any(e[0] < a and e[1] > b for e in ents):
             cl.append("straddler")
+            if shrink and spec.get("style") != "grid" and any(x[0] < a and x[1] > b and y[0] == x[1] for x, y in zip(ents, ents[1:])):
+                cl.append("straddler_with_touching_follower")
         if shrink and any(e[0] >= b for e in ents):
             cl.append("shrink_moves_entry")
             if spec.get("style") != "grid":
@@ -83,8 +87,11 @@ def run_tier_case(case):
     p = P()
     spec, a, b, mode, shrink = case["tier"], case["a"], case["b"], case["mode"], case["shrink"]
     tier = mk_tier(spec)
+    spec = models.apply_pre(tier, spec, case.get("pre"))
     before = snap_tier(tier)
     classes = classify(spec, a, b, mode, shrink)
+    if case.get("pre"):
+        classes.append("after_in_place_edit")
     N = models.num_type(spec.get("style"))
     is_int = spec["type"] == "interval"
     try:
@@ -208,13 +215,26 @@ def enum_point(tier, shard, nshards):
 def region_for(draw, entries_list, style, minT, maxT, degenerate=True):
     """(a, b) inside [minT, maxT]: edges on, inside and between entries."""
     bounds = sorted({t for ents in entries_list for en in ents for t in en[:-1]})
-    cands = list(bounds) + [(x + y) / 2 for x, y in zip(bounds, bounds[1:])] + [minT, maxT]
+    thirds = [x + (y - x) * f for x, y in zip(bounds, bounds[1:]) for f in (0.25, 0.75)]
+    cands = list(bounds) + [(x + y) / 2 for x, y in zip(bounds, bounds[1:])] + thirds + thirds + [minT, maxT]
     cands = [c for c in cands if minT <= c <= maxT]
     pick = st.one_of(st.sampled_from(cands), st.sampled_from(bounds or cands), gen.time_of(style).filter(lambda t: minT <= t <= maxT))
     a = draw(pick)
     b = draw(pick)
     r = draw(st.integers(0, 39)) if degenerate else 5
-    if r == 0:
+    ivs = [en for ents in entries_list for en in ents if len(en) == 3 and minT <= en[0] and en[1] <= maxT]
+    if r in (2, 3, 4, 5, 6) and ivs:
+        # a region strictly inside one interval (the straddling case)
+        en = draw(st.sampled_from(ivs))
+        w = en[1] - en[0]
+        fr = [(0.25, 0.75), (0.5, 0.875), (0.125, 0.375)]  # dyadic: exact on the grid
+        if style != "grid":
+            fr += [(0.1, 0.3), (0.5, 0.9), (0.3, 0.37)]
+        f0, f1 = draw(st.sampled_from(fr))
+        a, b = en[0] + w * f0, en[0] + w * f1
+        if not (en[0] < a < b < en[1]):
+            a, b = en[0], en[1]
+    elif r == 0:
         b = a
     elif r == 1:
         a, b = max(a, b), min(a, b)
@@ -234,9 +254,10 @@ def tier_cases(draw):
     style = draw(gen.STYLES_ARITH)
     spec = draw(st.one_of(gen.interval_tier(style=style, max_segments=7, label=gen.AB),
                           gen.interval_tier(style=style, max_segments=7),
-                          gen.point_tier(style=style)))
+                          gen.point_tier(style=style, dups=True)))
     a, b = draw(region_for([spec["entries"]], style, spec["minT"], spec["maxT"]))
-    return {"tier": spec, "a": a, "b": b, "mode": draw(st.sampled_from(MODES)), "shrink": draw(st.booleans())}
+    pre = draw(st.one_of(st.none(), st.none(), st.fixed_dictionaries({"delete": st.one_of(st.none(), st.integers(0, 7))})))
+    return {"tier": spec, "a": a, "b": b, "mode": draw(st.sampled_from(MODES)), "shrink": draw(st.booleans()), "pre": pre}
 
 
 @st.composite
@@ -245,6 +266,26 @@ def tg_cases(draw):
     spec = draw(gen.textgrid(style=style, max_tiers=4, label=gen.AB))
     a, b = draw(region_for([t["entries"] for t in spec["tiers"]], style, spec["minT"], spec["maxT"]))
     return {"tg": spec, "a": a, "b": b, "shrink": draw(st.booleans())}
+
+
+@st.composite
+def straddle_cases(draw):
+    """A region strictly inside one interval that is followed by touching intervals, on short decimals:
+    the rounding-sensitive 'comes out as one interval' path."""
+    d = draw(st.integers(1, 3))
+    f = lambda k: float(f"{k}e-{d}")
+    u = 10 ** d
+    s0 = draw(st.integers(0, 3 * u))
+    gaps = draw(st.lists(st.integers(1, 4 * u), min_size=3, max_size=3))  # start->a, a->b, b->end
+    a, b, e0 = s0 + gaps[0], s0 + gaps[0] + gaps[1], s0 + sum(gaps)
+    ents = [[f(s0), f(e0), "x"]]
+    cur = e0
+    for lab in draw(st.lists(st.sampled_from(["y", "x", "z"]), min_size=1, max_size=3)):
+        nxt = cur + draw(st.integers(1, 2 * u))
+        ents.append([f(cur), f(nxt), lab])
+        cur = nxt
+    spec = {"type": "interval", "name": "t", "entries": ents, "minT": 0.0, "maxT": f(cur + draw(st.sampled_from([0, 0, u]))), "style": "dec"}
+    return {"tier": spec, "a": f(a), "b": f(b), "mode": "truncate", "shrink": True}
 
 
 CHECKS = [
@@ -256,6 +297,8 @@ CHECKS = [
           doc="random dyadic / non-dyadic decimal tiers (rounding must never make the call fail)"),
     Check("textgrid_random", run_tg_case, strategy=lambda tier: tg_cases(), quick_n=700, thorough_n=12000,
           doc="Textgrid.eraseRegion tier-wise + span bookkeeping + validate()"),
+    Check("straddle_decimal", run_tier_case, strategy=lambda tier: straddle_cases(), quick_n=1500, thorough_n=25000,
+          doc="region strictly inside an interval with touching followers, 1-3 digit decimals, shrink: never a rounding failure"),
 ]
 
 KNOWN = {}
